@@ -166,7 +166,8 @@ def run(ctx):
             bad_def = None
             break
         ins = [x for x in r["inserts"] if x[0] in ("insert",)]
-        if [x[1] for x in ins] != [0] or r["stores"] and any(fr != 0 for fr, _ in r["stores"]):
+        own_store = (0 in found and not ins and [fr for fr, _ in r["stores"]] == [0])     # the own frame's binding overwritten in place
+        if ([x[1] for x in ins] != [0] and not own_store) or r["stores"] and any(fr != 0 for fr, _ in r["stores"]):
             bad_def = "with frames %s binding the name define writes %s / stores %s" % (sorted(found), r["inserts"], r["stores"])
     if bad_def:
         ctx.report("C19-global-census", "define-own-frame", "LexicalScope::define does not write exactly the own frame: " + bad_def, where_of(d))
@@ -265,6 +266,36 @@ def run(ctx):
     return EXPLANATION, NOT_DECIDED
 
 
+RESETS = ("std::string::String::clear", "std::vec::Vec::clear", "Vec<T, A>::clear", "std::collections::HashMap::clear",
+          "std::collections::HashSet::clear", "std::collections::VecDeque::clear")
+
+
+def _reset_before_use(cf, p, b, c):
+    """The cell borrowed mutably at block b is emptied before anything else is done with it: every use of the guard that is not
+    preceded (dominated) by another use is a `clear()`.  What an earlier access left behind is then never read."""
+    guard = {l for l in range(len(cf.locals)) if ("call", b, c) in p.roots(l)}
+    if not guard:
+        return False
+    uses = []
+    for bb, tt in cf.calls():
+        cc = callee(tt) or ""
+        if bb == b or cf.blocks[bb]["cleanup"]:
+            continue
+        if any(mir.op_local(a) in guard for a in tt["args"]):
+            if callee_matches(tt, "std::ops::DerefMut>::deref_mut", "std::ops::Deref>::deref", "std::ops::Drop>::drop", "mem::drop"):
+                continue
+            uses.append((bb, cc))
+    if not uses:
+        return False
+    dom = cf.dominators()
+    firsts = [(bb, cc) for bb, cc in uses if not any(b2 != bb and b2 in dom[bb] for b2, _ in uses)]
+    # stores through the guard (`*guard = ...`) are not followed here
+    for bb, i, st in cf.stmts():
+        if st["k"] == "assign" and st["place"]["local"] in guard and st["place"]["proj"]:
+            return False
+    return bool(firsts) and all(cc in RESETS or cc.endswith("::clear") for _, cc in firsts)
+
+
 def confinement(ctx, fb, cf):
     """Why (if at all) the shared object (parameter 2 of the LocalKey::with closure) escapes."""
     why = []
@@ -273,6 +304,7 @@ def confinement(ctx, fb, cf):
     # result
     rr = {c for _, c in p.call_roots(0)}
     ra = p.arg_roots(0)
+    scratch = False
     if 2 in ra:
         why.append(("returned", "is handed out to the caller as it is (Rc clone of the shared object)"))
     for b, t in cf.calls():
@@ -287,8 +319,12 @@ def confinement(ctx, fb, cf):
                 continue
             if c in ("environment::LexicalScope::get",):
                 continue
+            if c in ("std::cell::RefCell::borrow_mut", "RefCell<T>::borrow_mut") and _reset_before_use(cf, p, b, c):
+                scratch = True
+                continue            # scratch storage: emptied at every access before anything reads it
             why.append((c.rsplit("::", 1)[-1], "is passed to %s" % c))
-    if not why and rr and rr != {"environment::LexicalScope::new_child"}:
+    if not why and rr and rr != {"environment::LexicalScope::new_child"} and not scratch:
+        # (with scratch storage the result is computed from what this very access put there)
         why.append(("result", "flows into the result through %s" % sorted(rr)))
     for b, i, s in cf.stmts():
         if s["k"] == "assign" and s["place"]["proj"] and s["place"]["local"] != 0:
